@@ -1,10 +1,10 @@
 (* C02 -- a library file is an insert-only key-value map over any operation history.
    Property theorems only; lemmas live in Proofs/UKVBase.v, Proofs/UKV.v.  The model (Model/UKV.v) is tied
    to molli/storage/ukvfile.py by the differential correspondence of harness/c02.py on every run. *)
-From Coq Require Import NArith List Bool.
+From Coq Require Import NArith ZArith List Bool.
 Import ListNotations.
 From Molli Require Import Model.UKV Proofs.UKVBase Proofs.UKV Proofs.UKVCrash Model.Backend Proofs.Backend
-  Model.UKVViews Proofs.UKVViews.
+  Model.UKVViews Proofs.UKVViews Proofs.BackendBuffer.
 Open Scope N_scope.
 
 (* One operation.  In any state satisfying the invariant (file = header ++ encoded records, distinct
@@ -178,4 +178,47 @@ Definition ex_vops : list vop :=
 Example C02_views_nonvacuous :
   fst (vrun (ex_H, repeat h0 2) ex_vops) =
     [VR ROk; VR ROk; VRItems [([1], [2; 3])]; VR ROk; VR ROk; VR ROk; VRVals [[2; 3]]; VRFail; VR ROk].
+Proof. vm_compute. reflexivity. Qed.
+
+(* ---------- the write buffer: an accepted put is lost only by failing ---------- *)
+(* Whatever the state: a flush takes the buffered puts apart into the ones it wrote (in order), at most ONE it dropped -- the
+   first whose write failed, and then the error is reported -- and the ones that stay buffered.  No error, nothing dropped. *)
+Theorem C02_flush_takes_apart : forall f b f' b' e,
+  flush f b = (f', b', e) ->
+  exists written dropped,
+    queue b = written ++ dropped ++ queue b' /\
+    match e with None => dropped = [] /\ queue b' = [] | Some _ => length dropped = 1%nat end /\ st b' = st b.
+Proof. exact flush_takes_apart. Qed.
+Print Assumptions C02_flush_takes_apart.
+
+(* Outside a writing session a get -- of any key, buffered or not -- is a pure read: file, handle and buffer are unchanged. *)
+Theorem C02_get_outside_writing_is_pure : forall f b k, writing b = false -> exists r, b_get f b k = (f, b, r).
+Proof. exact get_outside_writing. Qed.
+Print Assumptions C02_get_outside_writing_is_pure.
+
+(* ... and so is every reading operation of the property's histories (get, keys, contains, len, items, values), on the whole
+   world: the file and every handle stay exactly as they were. *)
+Theorem C02_reading_changes_nothing : forall f bs o i,
+  reads o = Some i -> (i < length bs)%nat -> writing (nth i bs b0) = false ->
+  exists r, bstep (f, bs) o = ((f, bs), r).
+Proof. exact reading_changes_nothing. Qed.
+Print Assumptions C02_reading_changes_nothing.
+
+(* A whole reading session -- begin, any sequence of reads, end -- leaves the handle's buffered puts as they were. *)
+Theorem C02_reading_session_keeps_buffer : forall i ops f bs,
+  forallb (in_read_session i) ops = true -> (i < length bs)%nat ->
+  let w := snd (brun (f, bs) (BeginR i :: ops ++ [EndR i])) in
+  queue (nth i (snd w) b0) = queue (nth i bs b0).
+Proof. exact reading_session_keeps_buffer. Qed.
+Print Assumptions C02_reading_session_keeps_buffer.
+
+(* Non-vacuity: a put left buffered by a failing flush (the 256-byte key before it is refused) survives a reading session
+   that asks for it, and the next writing session stores it. *)
+Definition ex_long : bytes := repeat 75 256.
+Definition ex_bops : list bop :=
+  [BeginW 0; CPut 0 ex_long [1]; CPut 0 [99] [7; 7]; EndW 0; BeginR 0; CGet 0 [99]; CItems 0; EndR 0; BeginW 0; EndW 0;
+   BeginR 0; CGet 0 [99]; EndR 0].
+Example C02_buffer_nonvacuous :
+  fst (brun (ex_H, [b_init (100000)%Z false]) ex_bops) =
+    [BOk; BOk; BOk; BErr BStruct; BOk; BErr BKey; BItems []; BOk; BOk; BOk; BOk; BVal [7; 7]; BOk].
 Proof. vm_compute. reflexivity. Qed.
